@@ -3,7 +3,7 @@
     with what the implementation was observed to do.  Values are ids in Z. *)
 From Coq Require Import List NArith ZArith Bool Arith Lia Ascii String.
 From MxlBase Require Import ListX.
-From CacheFS Require Import CacheKeys CacheFS.
+From CacheFS Require Import CacheKeys CacheFS CacheCodec.
 Import ListNotations.
 
 Definition tblNN (t : list (N * N)) (k : N) : N :=
@@ -92,6 +92,27 @@ Definition case_ok (pr : save_protocol) (c : case) : bool :=
   match c with
   | (names, fns, sizes, items, stages) => run_stages pr names fns sizes items fs_empty 1 stages
   end.
+
+(** a SESSION: several complete runs with one Cache object in one process, each over its OWN list of pairs
+    (growing / overlapping key sets), all on one directory starting empty.  The model has no object state:
+    stage i starts from the directory stage i-1 left, nothing else. *)
+Definition scase := (list (N * N) * list (N * Z) * list (Z * nat) * list (list (N * N) * run_spec * bool * stage_obs))%type.
+Fixpoint run_sstages (pr : save_protocol) (names : list (N * N)) (fns : list (N * Z)) (sizes : list (Z * nat))
+         (f : fs Z) (p : N) (stages : list (list (N * N) * run_spec * bool * stage_obs)) : bool :=
+  match stages with
+  | [] => true
+  | (items, r, buffered, o) :: rest =>
+      let st := run_stage pr names fns sizes items f p r buffered in
+      stage_matches names items st o && run_sstages pr names fns sizes (s_fs st) (N.succ p) rest
+  end.
+Definition scase_ok (pr : save_protocol) (c : scase) : bool :=
+  match c with
+  | (names, fns, sizes, stages) => run_sstages pr names fns sizes fs_empty 1 stages
+  end.
+
+(** which name _load_or_run handed to a custom save_fn, as observed (recording triple) *)
+Definition save_name_eqb (a b : save_name_kind) : bool :=
+  match a, b with SnFinal, SnFinal | SnTemp, SnTemp | SnUnknown, SnUnknown => true | _, _ => false end.
 
 (** correspondence of the default name function: a key of the universe and the file name the
     implementation was observed to use for it *)
